@@ -195,11 +195,13 @@ protected:
     //when try_lock fails, we need to register itself to waiting queue (_requests)
     bool subscribe(awaiter *aw) {
         //so subscribe to _requests
-        aw->subscribe(_requests);
+        //remember previous top of the stack, which gives as hint, how lock operation ended
+        //(aw->_next can't be used, because the awaiter is already published and
+        //unlocking thread can modify it)
+        awaiter *prev = aw->subscribe(_requests);
         COCLS_VERIF_POINT(mx_sub_post);
-        //now check result of _next, which gives as hint, how lock operation ended
-        //if the _next is null, the lock was unlock
-        if (aw->_next== nullptr) [[likely]] {
+        //if the previous top is null, the lock was unlock
+        if (prev == nullptr) [[likely]] {
             COCLS_VERIF_EVENT(ev_mx_lock_sub_free, this, 0);
             //because current awaiter will be destroyed, we need to replace self
             //with a doorman()
